@@ -2600,5 +2600,129 @@ theorem createCache_no_overlap_error (t : RawTree) (hT : TreeOK t) (lk : Lookup)
         rw [hgs] at hw; cases hw
       | ok gs => simp [hw] at h
 
+/-! ### the rest of the marker stage succeeds once the cache is written -/
+
+/-- every parent of the taxonomy has at least one child (`populated` of
+DESIGN §5; true of every tree built from cell records) -/
+def Populated (t : RawTree) : Prop := ∀ p ∈ t.allParents, ∀ ch, childrenOf t p = .ok ch → 1 ≤ ch.length
+
+theorem reconcile_go_ok (t : RawTree) (c : Cache) (ps : List PKey)
+    (h : ∀ p ∈ ps, ∃ ch, childrenOf t p = .ok ch ∧ (ch.length = 1 ∨ (c.groups.lookup p).isSome)) :
+    reconcile.go t c ps = .ok true := by
+  induction ps with
+  | nil => rfl
+  | cons p ps ih =>
+    obtain ⟨ch, hc, hh⟩ := h p (by simp)
+    simp only [reconcile.go, hc, ih (fun q hq => h q (by simp [hq]))]
+    rcases hh with h1 | h1
+    · simp [h1]
+    · simp [h1]
+
+/-- `reconcile_taxonomy_and_markers` cannot fail on the cache the run has just
+written from the same taxonomy -/
+theorem reconcile_ok (t : RawTree) (hT : TreeOK t) (hpop : Populated t) (lk : Lookup) (R Q : List Gene)
+    (m : Nat) (c : Cache) (h : createCache (some t) lk R Q m = .ok c) : reconcile t c = .ok () := by
+  unfold reconcile
+  have : reconcile.go t c t.allParents = .ok true := by
+    apply reconcile_go_ok
+    intro p hp
+    obtain ⟨ch, hc⟩ := hT.childrenOk p hp
+    refine ⟨ch, hc, ?_⟩
+    by_cases hl : ch.length > 1
+    · right
+      obtain ⟨rows, _, hg, _⟩ := createCache_group t hT lk R Q m c h p hp ⟨ch, hc, hl⟩
+      simp [hg]
+    · left
+      have := hpop p hp ch hc
+      omega
+  simp [this]
+
+theorem usedOf_ok (c : Cache) (ps : List PKey) (h : ∀ p ∈ ps, ∃ names, assemble c p = .ok names) :
+    ∃ out, usedOf c ps = .ok out ∧ out.map (·.1) = ps ∧ ∀ e ∈ out, assemble c e.1 = .ok e.2 := by
+  induction ps with
+  | nil => exact ⟨[], rfl, rfl, by simp⟩
+  | cons p ps ih =>
+    obtain ⟨names, hn⟩ := h p (by simp)
+    obtain ⟨out, ho, hk, he⟩ := ih (fun q hq => h q (by simp [hq]))
+    refine ⟨(p, names) :: out, by simp [usedOf, hn, ho], by simp [hk], ?_⟩
+    intro e hm
+    rcases List.mem_cons.1 hm with rfl | hm
+    · exact hn
+    · exact he e hm
+
+theorem serializeNodes_ok (t : RawTree) (c : Cache) (nodes : List (Level × Node))
+    (h : ∀ ln ∈ nodes, ∃ ch, childrenOf t (some ln) = .ok ch ∧
+      (ch.length < 2 ∨ ∃ g, reportedGroup c (some ln) = .ok g)) :
+    ∃ out, serializeNodes t c nodes = .ok out := by
+  induction nodes with
+  | nil => exact ⟨[], rfl⟩
+  | cons ln rest ih =>
+    obtain ⟨l, n⟩ := ln
+    obtain ⟨ch, hc, hh⟩ := h (l, n) (by simp)
+    obtain ⟨r, hr⟩ := ih (fun x hx => h x (by simp [hx]))
+    simp only [serializeNodes, hc, hr]
+    by_cases hl : ch.length < 2
+    · exact ⟨(some (l, n), []) :: r, by simp only [hl, if_true]⟩
+    · rcases hh with h1 | ⟨g, hg⟩
+      · exact absurd h1 hl
+      · exact ⟨(some (l, n), g) :: r, by simp only [hl, if_false, hg]⟩
+
+/-- **the marker stage of a run without `drop_level`/`flatten` succeeds as soon
+as the cache is written**, and for every consulted parent the genes
+`assemble_query_data` uses are the genes the output reports -/
+theorem stage_ok (t : RawTree) (hT : TreeOK t) (hpop : Populated t) (lk : Lookup) (R Q : List Gene)
+    (m : Nat) (c : Cache) (h : createCache (some t) lk R Q m = .ok c) :
+    ∃ out, stage t lk R Q m none false = .ok out ∧
+      (∀ e ∈ out.used, e.1 ∈ t.allParents ∧ Consulted t e.1 ∧ assemble c e.1 = .ok e.2 ∧
+        reportedGroup c e.1 = .ok e.2) ∧
+      (∀ e ∈ out.reported, ReportedEntry t c e.1 e.2) := by
+  obtain ⟨cons, hc⟩ := consultedOf_ok t t.allParents hT.childrenOk
+  have hcons := consultedOf_spec t _ cons hc
+  obtain ⟨used, hu, _, hue⟩ := usedOf_ok c cons (by
+    intro p hp
+    obtain ⟨hpa, hpc⟩ := (hcons p).1 hp
+    obtain ⟨_, names, _, _, _, _, ha, _⟩ := createCache_group t hT lk R Q m c h p hpa hpc
+    exact ⟨names, ha⟩)
+  have hser : ∃ out, serialize t c = .ok out := by
+    unfold serialize
+    obtain ⟨r, hr⟩ := serializeNodes_ok t c
+      (t.hierarchy.dropLast.flatMap (fun l => (t.nodesAt l).map (fun n => (l, n)))) (by
+        intro ln hln
+        obtain ⟨l, n⟩ := ln
+        have hp : some (l, n) ∈ t.allParents := by
+          simp only [RawTree.allParents, List.mem_cons, reduceCtorEq, false_or, List.mem_flatMap,
+            List.mem_map, Option.some.injEq]
+          simp only [List.mem_flatMap, List.mem_map] at hln
+          obtain ⟨l', hl', n', hn', he⟩ := hln
+          exact ⟨l', hl', n', hn', he⟩
+        obtain ⟨ch, hch⟩ := hT.childrenOk _ hp
+        refine ⟨ch, hch, ?_⟩
+        by_cases hl : ch.length < 2
+        · exact Or.inl hl
+        · right
+          obtain ⟨_, names, _, _, _, hrep, _⟩ := createCache_group t hT lk R Q m c h _ hp ⟨ch, hch, by omega⟩
+          exact ⟨names, hrep⟩)
+    simp only [hr]
+    obtain ⟨chr, hcr⟩ := hT.childrenOk none (by simp [RawTree.allParents])
+    simp only [hcr]
+    by_cases hl : chr.length < 2
+    · exact ⟨r ++ [(none, [])], by simp only [hl, if_true]⟩
+    · obtain ⟨_, names, _, _, _, hrep, _⟩ := createCache_group t hT lk R Q m c h none
+        (by simp [RawTree.allParents]) ⟨chr, hcr, by omega⟩
+      exact ⟨r ++ [(none, names)], by simp only [hl, if_false, hrep]⟩
+  obtain ⟨rep, hrep⟩ := hser
+  refine ⟨{ reported := rep, used := used }, ?_, ?_, (serialize_spec t c rep hrep).2⟩
+  · simp only [stage, Bool.false_eq_true, if_false, h, reconcile_ok t hT hpop lk R Q m c h, hc, hu, hrep]
+  · intro e he
+    have hass := hue e he
+    have hmem : e.1 ∈ cons := by
+      have : e.1 ∈ used.map (·.1) := List.mem_map.2 ⟨e, he, rfl⟩
+      rwa [‹used.map (·.1) = cons›] at this
+    obtain ⟨hpa, hpc⟩ := (hcons e.1).1 hmem
+    obtain ⟨_, names, _, _, _, hrep', ha, _⟩ := createCache_group t hT lk R Q m c h e.1 hpa hpc
+    rw [hass] at ha
+    cases ha
+    exact ⟨hpa, hpc, hass, hrep'⟩
+
 end Markers
 end CTM
